@@ -15,3 +15,14 @@ const ticksAvailable = false
 func covReset() {}
 
 func covNew(seen *[1 << 16]uint8) int { return 0 }
+
+func profStart() {}
+
+func profStop() {}
+
+func profDominant() (string, uint64) { return "", 0 }
+
+var (
+	profSecond  string
+	profSecondN uint64
+)
